@@ -1430,6 +1430,32 @@ impl<T: Zero> WithScale<&T> {
 }
 
 
+/// Verification hooks (only compiled with `--cfg bigdecimal_verif`):
+/// thin public wrappers around crate-private routines and generated constants.
+#[cfg(bigdecimal_verif)]
+#[doc(hidden)]
+pub mod verif_hooks {
+    use super::*;
+
+    pub fn ten_to_the_uint(pow: u64) -> BigUint { arithmetic::ten_to_the_uint(pow) }
+    pub fn count_decimal_digits_uint(n: &BigUint) -> u64 { arithmetic::count_decimal_digits_uint(n) }
+    pub fn get_rounding_term(n: &BigInt) -> u8 { super::get_rounding_term(n) }
+    pub fn impl_division(num: BigInt, den: &BigInt, scale: i64, max_precision: u64) -> BigDecimal {
+        super::impl_division(num, den, scale, max_precision)
+    }
+    pub fn impl_sqrt(n: &BigUint, scale: i64, ctx: &Context) -> BigDecimal {
+        arithmetic::sqrt::impl_sqrt(n, scale, ctx)
+    }
+    pub fn impl_cbrt_int_scale(n: &BigInt, scale: i64, ctx: &Context) -> BigDecimal {
+        arithmetic::cbrt::impl_cbrt_int_scale(n, scale, ctx)
+    }
+    pub fn impl_inverse_uint_scale(n: &BigUint, scale: i64, ctx: &Context) -> BigDecimal {
+        arithmetic::inverse::impl_inverse_uint_scale(n, scale, ctx)
+    }
+    pub fn default_precision() -> u64 { DEFAULT_PRECISION }
+}
+
+
 #[rustfmt::skip]
 #[cfg(test)]
 #[allow(non_snake_case)]
